@@ -242,6 +242,23 @@ def rule_poll(fx, rep):
     for key, msg, site in ign:
         ok = False
         rep.violation("C09-POLL", "C09-POLL/" + key, msg + ": the polling points reached meanwhile do not observe a stop request, and the search goes on examining positions", site)
+    # ... and the request is still there when the poll looks: the shared flag is only ever raised (C05-STOPFLAG's writer clause,
+    # re-reported; seed C09-10a: a `start()` at the top of search() that stores false wipes a stop that arrived just before)
+    import core as _core
+    _sub = type(rep)(rep.prop, rep.tier)
+    _q = _core.QUIET
+    _core.QUIET = True
+    try:
+        _ex = fx.one("uci::Uci::execute")
+        pC05.rule_stopflag(fx, _sub, _ex, pC05.arm_regions(fx, _ex))
+    finally:
+        _core.QUIET = _q
+    for v in _sub.violations:
+        if v["key"].startswith("C05-STOPFLAG/writer/"):
+            n += 1
+            ok = False
+            rep.obligation(False)
+            rep.violation("C09-POLL", v["key"].replace("C05-STOPFLAG/writer/", "C09-POLL/flag-writer/"), v["msg"] + " (no polling point observes that stop)", v["site"])
     # ... an expired limit is observed too: no finite limit is mistaken for "no limit" (C05-LIMIT, re-reported; seed C09-6b)
     lf, ln, lnotes = pC05.limit_verdicts(fx)
     n += max(1, ln)
@@ -421,7 +438,7 @@ def rule_fallback(fx, rep):
             n += 1
             allowed = {"PrincipalVariation::push": {neg.name}, "PrincipalVariation::clear": {neg.name},
                        "PrincipalVariation::append": {fx.one("search::get_tablebase_pv").name}}[meth]
-            good = b.name in allowed
+            good = b.name in allowed or any(b.name.startswith(a + "::{closure") for a in allowed)  # a closure of an allowed writer is that writer
             if not good:
                 # a private helper split off an allowed writer: every caller (transitively, up to three levels) is allowed
                 frontier, seen_h = {b.name}, set()
@@ -453,6 +470,8 @@ ID = "src/engine/search/iterative_deepening.rs"
 TC = "src/engine/search/time_control.rs"
 SM = "src/engine/search/mod.rs"
 MUTANTS = [
+    {"name": "TimeStrategy::start() at the top of search() lowers the stop flag (seed C09-10a)", "expect": "C09-POLL/flag-writer/start",
+     "edits": __import__("shared_mutants").edits_from_patch("seeded/C09-10a/patch.diff")},
     {"name": "poll margin subtracted from a fixed move time (seed C09-5b)", "expect": "C09-POLL/panic",
      "edits": [("src/engine/search/time_control.rs", "            TimeControl::ExactTime(time) => self.elapsed() > time,", "            TimeControl::ExactTime(time) => self.elapsed() > time - Duration::from_millis(10),")]},
     {"name": "null move taken back only on a cut-off", "expect": "C09-PAIR/negamax/make_null_move",
